@@ -50,6 +50,7 @@ def run_family(ctx, name, behaviours, tags, server_flags=None, subcmd="run"):
     # vector); what follows from it in the same behaviour is attributed to the finding
     gcunsafe = {v["tid"] for v in viols if v["tag"] == "GCSafe"}
     attributed_tids = {}
+    prefix_tried = set()
     # RefEquiv / BuildEquiv first: a Converged violation of the same behaviour follows from them
     for v in sorted(viols, key=lambda v: (v["tid"], v["line"], v["tag"] == "Converged")):
         if v["tid"] in gcunsafe and v["tag"] in ("GCSafe", "SyncNeverFails", "Converged", "RefEquiv", "BuildEquiv", "BuildNeverFails") \
@@ -58,7 +59,10 @@ def run_family(ctx, name, behaviours, tags, server_flags=None, subcmd="run"):
             ctx.attributed["KF-MINVV-AFTER-PULL"] = "minimum version vector computed after the pull range was fixed (GCSafe violated on a forced schedule)"
             continue
         ctx.count("raw_violations_" + v["tag"])
-        if v["tag"] not in tags and not os.environ.get("VERIF_ALLTAGS"):
+        report = v["tag"] in tags or bool(os.environ.get("VERIF_ALLTAGS"))
+        # a disagreement with the reference that the check does not report may still explain (by a listed finding)
+        # the Converged violation that follows from it in the same behaviour: attribute it, never report it
+        if not report and v["tag"] not in ("RefEquiv", "BuildEquiv"):
             continue
         if (v["tid"], v["tag"]) in seen:
             continue
@@ -73,6 +77,13 @@ def run_family(ctx, name, behaviours, tags, server_flags=None, subcmd="run"):
                 first = json.loads(line)
                 break
         kf = F.attribute(ctx.prop, v, evs, first)
+        if kf is None and v["tid"] not in attributed_tids and v["tid"] not in prefix_tried \
+                and v["tag"] in ("Converged", "RefEquiv", "BuildEquiv") and v["tid"] in byid and subcmd == "run":
+            # one response may deliver the diverging change AND a later one that amplifies the divergence, so the first
+            # observable disagreement need not have the finding's shape: look for the shortest PREFIX of the behaviour
+            # that already disagrees with the reference, and judge that one
+            prefix_tried.add(v["tid"])
+            kf = prefix_attribution(ctx, byid[v["tid"]], server_flags)
         if kf is None and v["tid"] in attributed_tids and v["tag"] in ("Converged", "RefEquiv", "BuildEquiv", "BuildNeverFails", "SyncNeverFails", "LogReplayable"):
             # a behaviour whose FIRST disagreement with the reference is explained by a listed finding: once the
             # structures differ, later operations resolve differently, so what follows in the same behaviour is a
@@ -83,10 +94,59 @@ def run_family(ctx, name, behaviours, tags, server_flags=None, subcmd="run"):
             ctx.attributed[kf["id"]] = kf["what"]
             attributed_tids[v["tid"]] = kf
             continue
+        if not report:
+            continue
         out.append({"property": ctx.prop, "tag": v["tag"], "family": name, "behaviour": byid.get(v["tid"]),
                     "server_flags": server_flags or [], "event": first,
                     "errors": [e.get("err") for e in evs if e.get("err")][:5], "seed": ctx.seed})
     return out
+
+
+def prefix_attribution(ctx, b, server_flags):
+    """Re-executes every prefix of behaviour b (each followed by the usual quiescent syncs) and returns the listed
+    finding that explains the disagreement of the SHORTEST disagreeing prefix, or None."""
+    steps = b["steps"]
+    if len(steps) < 4 or len(steps) > 60:
+        return None
+    cands = []
+    for k in range(3, len(steps)):
+        nb = dict(b)
+        nb["steps"] = steps[:k]
+        nb["id"] = "%s~p%d" % (b["id"], k)
+        cands.append(nb)
+    try:
+        traces = execute(ctx, cands, "prefix-" + re_safe(b["id"]), server_flags=server_flags, shards=min(8, max(1, len(cands) // 4)))
+        viols = validate(ctx, traces)
+    except Infra:
+        return None
+    ctx.count("prefix_attribution_runs")
+    bad = {}
+    for v in viols:
+        if v["tag"] in ("RefEquiv", "BuildEquiv", "Converged", "SyncNeverFails", "LogReplayable", "BuildNeverFails"):
+            k = int(v["tid"].rsplit("~p", 1)[1])
+            bad.setdefault(k, []).append(v)
+    if not bad:
+        return None
+    k = min(bad)
+    for v in sorted(bad[k], key=lambda v: (v["line"], v["tag"] == "Converged")):
+        evs = trace_events(v["trace"], v["tid"])
+        first = None
+        with open(v["trace"]) as f:
+            for n, line in enumerate(f, 1):
+                if n == v["line"]:
+                    first = json.loads(line)
+                    break
+        kf = F.attribute(ctx.prop, v, evs, first)
+        if kf is not None:
+            ctx.count("attributed_by_prefix_" + kf["id"])
+            return kf
+        return None     # the first disagreement of the shortest prefix is not a listed finding
+    return None
+
+
+def re_safe(s):
+    import re as _re
+    return _re.sub(r"[^A-Za-z0-9_.-]", "_", s)[:40]
 
 
 def split_known(ctx, viols):
